@@ -81,9 +81,11 @@ class Abort(Exception):
     pass
 
 
-def run_impl(prog):
+def run_impl(prog, whitespace=True):
     from giscanner.xmlwriter import XMLWriter
     w = XMLWriter()
+    if not whitespace:
+        w.disable_whitespace()
 
     def ex(st):
         k = st[0]
@@ -230,6 +232,28 @@ def main(tier, seed):
         if not same_document(got, want):
             ck.failing_input('document read back differs from what was written', dict(program=prog),
                              detail=dict(xml=xmltext, got=got[:40], want=want[:40]))
+
+    # the same programs with layout whitespace switched off (XMLWriter.disable_whitespace): judged by the
+    # independent reader only; the attribute-list theorem covers every indent string, the empty one included
+    for i, (kind, prog) in enumerate(progs):
+        if kind == 'malformed':
+            continue
+        try:
+            xmltext, raised = run_impl(prog, whitespace=False)
+        except Exception as e:     # noqa
+            ck.failing_input('the writer raises with whitespace disabled: %r' % (e,), dict(program=prog, whitespace=False))
+            continue
+        ck.count_case(dict(kind=kind, program=prog, raised=raised, whitespace=False), nontrivial=len(xmltext) > 60, kind=kind + '/nows')
+        want = intended(prog)
+        try:
+            got = read_back(xmltext)
+        except Exception as e:
+            ck.failing_input('output is not well-formed XML with whitespace disabled: %s' % e, dict(program=prog, whitespace=False),
+                             detail=dict(xml=xmltext))
+            continue
+        if not same_document(got, want):
+            ck.failing_input('document read back differs from what was written (whitespace disabled)',
+                             dict(program=prog, whitespace=False), detail=dict(xml=xmltext, got=got[:40], want=want[:40]))
 
     # correspondence with the Coq model, byte for byte
     if ck.models_ok:
